@@ -14,7 +14,7 @@ LEVEL = 'model_checking'
 ENGINE = 'simnet'
 BOUNDS = {'quick': dict(configs='(3,1),(4,1),(5,2) x PRSS on/off', programs='mul_add, in_prod, prod3 (m=3), randoms, allany (m=3)',
                         ext_fields='random_split over GF(4), GF(9): recorded randbelow bound == order'),
-          'thorough': dict(configs='(3,1),(4,1),(5,1),(5,2),(6,2),(7,3) x PRSS on/off', programs='whole L1 corpus')}
+          'thorough': dict(configs='(3,1),(4,1),(5,1),(5,2),(6,2),(7,3) x PRSS on/off', programs='whole L1 corpus', ext_fields='GF(4), GF(8), GF(9)')}
 OUTSIDE = ['uniformity of a degree-t dealing as such (C13)', 'frames of output/transfer (shares opened on purpose, user payloads)',
            'programs outside the L1 corpus']
 ASSUMPTIONS = ['secrets.randbelow uniform', 'C13 for the dealt rows']
@@ -151,7 +151,7 @@ def instances(tier):
                 if prog in ('prod3', 'pow3', 'allany') and m > 3:
                     continue
                 out.append(Inst(f'{prog}[m={m},t={t},prss={int(prss)}]', h, dict(m=m, t=t, prss=prss, prog=prog), timeout=600))
-    for q, char, deg in [(4, 2, 2), (9, 3, 2)] + ([(8, 2, 3), (25, 5, 2)] if tier != 'quick' else []):
-        out.append(Inst(f'ext_field_randbelow[q={q}]', h_ext, dict(q=q, char=char, deg=deg), timeout=300, max_paths=2000))
+    for q, char, deg in [(4, 2, 2), (9, 3, 2)] + ([(8, 2, 3)] if tier != 'quick' else []):
+        out.append(Inst(f'ext_field_randbelow[q={q}]', h_ext, dict(q=q, char=char, deg=deg), timeout=600, max_paths=20000))
     out.append(Inst('twin_output_frames_are_dealings', h_twin, {}, twin=True, expect='violated'))
     return out
